@@ -80,7 +80,9 @@ FINDING = {
   'param-image-type-dependent': 'param-str-image-collision',
   'non-identifier-params': 'illegal-module-name',
   'object-repr-param': 'param-repr-address',
-  'explicit-name-different-parameters': 'explicit-module-name-shared',
+  # both: the component table of translate_component is keyed by the unique name, not by the name the module is emitted under
+  'explicit-name-different-parameters': 'explicit-module-name-table-key',
+  'explicit-name-one-of-two-equal-instances': 'explicit-module-name-table-key',
 }
 
 # ----------------------------------------------------------------------------- protocol helpers
@@ -332,7 +334,7 @@ def refused_design(ck, d, backend, case, exc):
   if not undistinguishable:
     by_repr = {repr(m): m for m in comps}
     pair = [by_repr.get(mm.group(1)), by_repr.get(mm.group(3))] if mm else [None, None]
-    ck.violation('legal-design-refused', {'finding': 'distinct-components-one-module-name'}, case,
+    ck.violation('legal-design-refused', {'finding': FINDING.get(d.get('stream')) or 'distinct-components-one-module-name'}, case,
                  {'error': f'{type(exc).__name__}: {msg.strip()[:400]}',
                   'module_name': mm.group(5) if mm else None,
                   'colliding_instances': [{'instance': repr(x), 'class': f'{type(x).__module__}.{type(x).__qualname__}',
@@ -341,7 +343,7 @@ def refused_design(ck, d, backend, case, exc):
                   'oracle': 'no two instances of this design have the same class name and the same parameter images, so no two '
                             'of them may share a module name: components that differ in class or parameters never collide'})
   alias = any(name[a] == name[b] and stand[a] != stand[b] for a in comps for b in comps)
-  if (rep[3] == 'err') != alias or not alias:
+  if undistinguishable and ((rep[3] == 'err') != alias or not alias):     # (a refusal the direct oracle rejects is reported above)
     ck.disagreement('translateChecked≈translator refusing a design', case, {'checked': rep[3], 'name': unS(rep[4])},
                     {'refused': f'{type(exc).__name__}: {msg[:300]}', 'alias_by_direct_oracle': alias})
 
